@@ -1,0 +1,29 @@
+//! Verification hook, compiled only with `--cfg gdsl_verif`.
+//!
+//! The sync node types call [`lock_point`] immediately before they take a
+//! node's reader-writer lock.  A test harness can install a callback to
+//! observe or to order these acquisitions (for example to replay a particular
+//! interleaving of two threads).  Without an installed callback the call does
+//! nothing.
+
+use std::sync::RwLock;
+
+/// Callback: address of the lock about to be taken, and whether it is taken
+/// for writing.
+pub type LockPoint = fn(lock_addr: usize, write: bool);
+
+static HOOK: RwLock<Option<LockPoint>> = RwLock::new(None);
+
+/// Installs (or, with `None`, removes) the callback.
+pub fn install(hook: Option<LockPoint>) {
+    *HOOK.write().unwrap_or_else(|e| e.into_inner()) = hook;
+}
+
+/// Called by the library right before `read()` / `write()` on a node's lock.
+#[inline]
+pub fn lock_point<T>(lock: &T, write: bool) {
+    let hook = *HOOK.read().unwrap_or_else(|e| e.into_inner());
+    if let Some(f) = hook {
+        f(lock as *const T as usize, write);
+    }
+}
